@@ -70,10 +70,34 @@ def telems : TOp → List Nat
 def laterWriteback (S : Schema) (W : World) (f a : Nat) : Bool :=
   (S.superFields (W.clsOf a) (S.propOf f)).any (· > f)
 
+/-- events outside the container: `(drop x)` the program forgets element `x` (no longer in the field: it dies),
+`(fresh y)` element `y` is created only now (CPython gives it a freed address). They do not touch the container. -/
+def isEnvEvent : Sexp → Bool
+  | .list [.atom "drop", _] => true
+  | .list [.atom "fresh", _] => true
+  | _ => false
+
+def droppedOf (raw : List Sexp) : List Nat :=
+  raw.filterMap fun x => match x with | .list [.atom "drop", o] => o.asNat? | _ => none
+
+/-- an element may only be dropped while the field (by Python semantics) does not hold it -/
+def dropsOk (key : Nat → Nat) (isSet : Bool) (σ0 : CState) (raw : List Sexp) : Bool :=
+  (raw.foldl (fun (acc : CState × Bool) x =>
+    match x with
+    | .list [.atom "drop", o] => (acc.1, acc.2 && (match o.asNat? with | some o => !acc.1.c.contains o | none => false))
+    | .list [.atom "fresh", _] => acc
+    | _ => match parseCOp x with
+      | some op => (specStepC key isSet acc.1 op, acc.2)
+      | none => (acc.1, false)) (σ0, true)).2
+
+def liveOnly (dead : List Nat) (g : List Fact) : List Fact :=
+  g.filter fun r => !dead.contains r.2.1 && !dead.contains r.2.2
+
 def run (s : Sexp) : String :=
   match s with
   | .list (.atom "w" :: items) =>
-    match parseSchema items, parseWorld items, (Sexp.field? items "ops").bind (·.mapM parseCOp),
+    let raw := (Sexp.field? items "ops").getD []
+    match parseSchema items, parseWorld items, (raw.filter (!isEnvEvent ·)).mapM parseCOp,
           (Sexp.field? items "field").bind (·.head?) |>.bind Sexp.asNat?,
           (Sexp.field? items "obj").bind (·.head?) |>.bind Sexp.asNat?,
           (Sexp.field? items "init").bind parseNats with
@@ -82,17 +106,21 @@ def run (s : Sexp) : String :=
       let wf := f < S.fields.length && a < W.size && S.kindOf f != .single &&
         (init ++ ops.flatMap elems).all (· < W.size) && ops.all (·.applicable isSet) &&
         W.rt.all (fun r => match r with | some x => x < W.size | none => true)
+      let key := parseKey items
+      let dead := droppedOf raw
+      let wf := wf && !dead.contains a &&
+        dropsOk key isSet (specC key isSet ⟨[], []⟩ (init.map .append)) raw
       if !wf then "error=ill-formed-case" else
       let R := schemaRules S W
       let fuel := fuelFor S W
-      let key := parseKey items
       let start (Q : Quirks) : CState := runC key Q isSet ⟨[], []⟩ (init.map .append)
+      -- relations are observed among the instances that are alive at the end
       let out (Q : Quirks) : String :=
         let σ := runC key Q isSet (start Q) ops
-        showContents isSet σ.c ++ "|" ++ showRels (PD.run R fuel (σ.calls.map fun t => (f, a, t)))
+        showContents isSet σ.c ++ "|" ++ showRels (liveOnly dead (PD.run R fuel (σ.calls.map fun t => (f, a, t))))
       let sp := specC key isSet (specC key isSet ⟨[], []⟩ (init.map .append)) ops
       let cl := closure R fuel (sp.calls.map fun t => (f, a, t))
-      let spec := if cl.2 then showContents isSet sp.c ++ "|" ++ showRels cl.1 else "spec-diverged"
+      let spec := if cl.2 then showContents isSet sp.c ++ "|" ++ showRels (liveOnly dead cl.1) else "spec-diverged"
       -- F-C16-1..4 and the slice-assignment defects F-C16-7/8 are repaired in /repo (fix commits 1406c8c, 86aebcb,
       -- 5eefee2): the model tied to the code is `Quirks.none`; `model_before_slice_fix=` is the code before 5eefee2
       let trig := (if trigSliceTwins key ops then ["F-C16-7"] else []) ++
